@@ -262,7 +262,7 @@ def reaper_wait_of(init):
     return ["WExistsPollSleep", "WIsFileElseRaise", "WLoad"]
 
 
-GLOB_RESULTS = "len(glob.glob(os.path.join(self.location, 'results', RSLT_NM.format('*'))))"
+GLOB_RESULTS = "len(glob.glob(os.path.join(glob.escape(self.location), 'results', RSLT_NM.format('*'))))"   # the crop's own path taken literally
 
 
 def query_ops_of(tree):
